@@ -4,7 +4,7 @@ VERIF = os.path.dirname(os.path.dirname(os.path.abspath(__file__)))
 sys.path.insert(0, VERIF)
 from harness.core import Run
 from harness import tla
-from harness.checks import treefam as F, regfam as R
+from harness.checks import treefam as F, regfam as R, iterfam as I
 
 run = Run('SELFTEST', 'quick', 0)
 ok = True
@@ -68,5 +68,32 @@ r = tla.run_tlc('selftest-tr', 'TraceRegistry', open(os.path.join(tla.SPEC, 'Tra
 failed = {t[1] for t in tla.prints(r.out, 'FAIL')}
 done = {t[1] for t in tla.prints(r.out, 'DONE')}
 expect('TraceRegistry rejects the two corrupted traces and accepts the rest', failed == {1, 2} and done == {3, 4, 5})
+# 3. IterSem: a recorded iterator program with one result changed / one mutation dropped from the record
+progs = I.random_programs(40, 30, 11)
+inp, outp = os.path.join(wd, 'ip.ndjson'), os.path.join(wd, 'it.ndjson')
+F.write_work(inp, progs)
+run.drive('harness.drivers.d_iter', [inp, outp])
+its = [json.loads(l) for l in open(outp)]
+expect('IterSem accepts the recorded iterator programs', run.judge(its, 'st-it0') == [])
+bad = []
+for c in its:
+    c = copy.deepcopy(c)
+    ks = [k for k, x in enumerate(c['calls']) if x['op'] == 'next' and x['res'] and x['res'][0] >= 10]
+    if ks:
+        c['calls'][ks[-1]]['res'] = [c['calls'][ks[-1]]['res'][0] + 1]
+        bad.append(c)
+    if len(bad) == 5:
+        break
+for c in its:
+    c = copy.deepcopy(c)
+    # drop a recorded `clear` of a container that an iterator reads afterwards: the trace no longer explains the later results
+    ks = [k for k, x in enumerate(c['calls']) if x['op'] == 'mutate' and x['e'] == 'clear' and x['res'] == []]
+    for k in ks:
+        d = copy.deepcopy(c)
+        del d['calls'][k]
+        bad.append(d)
+fails = run.judge(bad, 'st-it1')
+expect(f'IterSem rejects the 5 traces with a changed __next__ result and at least one trace with a dropped mutation ({len(fails)} of {len(bad)} rejected)',
+       {i for i, _ in fails} >= set(range(5)) and len(fails) > 5)
 print('selftest', 'ok' if ok else 'FAILED')
 sys.exit(0 if ok else 1)
